@@ -435,6 +435,28 @@ def ak_of(spec, s, xs):
     return [float((1.0 + 0.5 * k) * Y[0][k]) for k in range(K)]
 
 
+def _ajk(spec, s, xs):
+    K = spec['K']
+    (Y, dY) = yields(spec)
+    if callable(Y):
+        g = np.array(xs if len(xs) == K else [xs[0]] * K, dtype=np.float64)
+        Y = Y({'gamma': g})
+    return np.array([[(1.0 + 0.5 * k) * Y[j][k] for k in range(K)] for j in range(len(Y))])
+
+
+def fj_of(spec, s, xs):
+    """dataset signal weight factors f_j, computed without skyllh"""
+    a = _ajk(spec, s, xs)
+    return [float(v) for v in a.sum(axis=1) / a.sum()]
+
+
+def other_ri(spec, d, s, xs):
+    """R_i of the second dataset (source-weighted stub ratio), computed without skyllh"""
+    a2 = _ajk(spec, s, xs)[1]
+    tab = STUB2_TABLE[:spec['K'], :E2[d]]
+    return [float(v) for v in (tab * a2[:, None]).sum(axis=0) / a2.sum()]
+
+
 def one_plus_alpha():
     from skyllh.core.llhratio import ZeroSigH0SingleDatasetTCLLHRatio
     return float(ZeroSigH0SingleDatasetTCLLHRatio._one_plus_alpha)
